@@ -59,13 +59,14 @@ theorem cacheOK_removeSubtree (dt : Data) (s sub s' : Store) (hw : WF s) (hc : C
     (h : s.removeSubtree dt sub = some s') : CacheOK dt s' :=
   cacheOK_rmSub dt s sub s' hw.toWFc hc h
 
-/-- `add_subtree`: the grafted subtree's caches are in order, path from the graft point recomputed.
-`WF` of the *result* (C07 proves it along every history) says that the result's name → index map
-sends the graft point's name to the graft point, i.e. that `_update_path_to_root` starts there. -/
-theorem cacheOK_addSubtree (dt : Data) (s sub s' : Store) (parent : Option Int) (hc : CacheOK dt s)
-    (hcs : CacheOK dt sub) (hw' : WF s') (h : s.addSubtree dt sub parent = some s') :
+/-- `add_subtree`: the grafted subtree's caches are in order, path from the graft point recomputed
+(`_update_path_to_root` is given the graft point's name; after the relabelling that name resolves to
+the graft point or to a grafted clone below it, and the recomputed path covers the graft point in
+both cases) -/
+theorem cacheOK_addSubtree (dt : Data) (s sub s' : Store) (parent : Option Int) (hw : WF s)
+    (hc : CacheOK dt s) (hcs : CacheOK dt sub) (h : s.addSubtree dt sub parent = some s') :
     CacheOK dt s' :=
-  cacheOK_addSub dt s sub s' parent hc hcs hw'.toWFc h
+  cacheOK_addSub_in dt s sub s' parent hw.toWFc hc hcs h
 
 theorem cacheOK_relabelNodes (dt : Data) (s : Store) (hc : CacheOK dt s) :
     CacheOK dt s.relabelNodes := cacheOK_relabel dt s hc
@@ -82,17 +83,16 @@ theorem cacheOK_dictRoundTrip (dt : Data) (s s' : Store)
 
 /-- **C06, one edit of a history** over several live handles (`copy`, `get_subtree`, dict round trip
 create aliases that are then edited alternately): every handle's cache stays in order.  `WF` before
-the edit locates the recomputation path, `WF` after it is used by `add_subtree` only. -/
+the edit locates the recomputation path. -/
 theorem cacheOK_step (dt : Data) (hNZ : DataNZ dt) (sys sys' : Sys) (op : Op)
-    (hwf : ∀ s ∈ sys, WF s) (hwf' : ∀ s ∈ sys', WF s) (hin : InRange dt op)
+    (hwf : ∀ s ∈ sys, WF s) (hin : InRange dt op)
     (hc : ∀ s ∈ sys, CacheOK dt s) (h : step dt sys op = some sys') : ∀ s ∈ sys', CacheOK dt s :=
-  cacheOK_step' dt hNZ sys sys' op (fun s hs => (hwf s hs).toWFc) (fun s hs => (hwf' s hs).toWFc)
-    hin hc h
+  cacheOK_step' dt hNZ sys sys' op (fun s hs => (hwf s hs).toWFc) hin hc h
 
 /-- **C06, every history (the form the proof uses).**  From the empty tree, after any list of edits
 of any length: every live handle's cache is in order, provided the part `WFc` of well-formedness
-(unique graph indices, name → index exact on the clones) holds in every visited state, and removed
-data points lie inside the data set, whose likelihood values are non-zero. -/
+(unique graph indices, name → index exact on the clones) holds in every state an edit is applied to,
+and removed data points lie inside the data set, whose likelihood values are non-zero. -/
 theorem cacheOK_reachable_wfc (dt : Data) (hNZ : DataNZ dt) (ops : List Op) (sys : Sys)
     (hwf : Along dt (fun sy => ∀ s ∈ sy, WFc s) [Store.init dt] ops)
     (hin : ∀ op ∈ ops, InRange dt op) (h : run dt [Store.init dt] ops = some sys) :
@@ -109,7 +109,7 @@ theorem cacheOK_reachable (dt : Data) (hNZ : DataNZ dt) (ops : List Op) (sys : S
   cacheOK_reachable_wfc dt hNZ ops sys
     (Along.mono (fun _ hsy s hs => (hsy s hs).toWFc) hwf) hin h
 
-/-- the same with "along the run" spelt as "after every prefix of the history" -/
+/-- the same with "along the run" spelt as "after every prefix of the history" (proper or not) -/
 theorem cacheOK_reachable_of_prefixes (dt : Data) (hNZ : DataNZ dt) (ops : List Op) (sys : Sys)
     (hwf : ∀ pre post sys1, ops = pre ++ post → run dt [Store.init dt] pre = some sys1 →
       ∀ s ∈ sys1, WF s)
